@@ -1,5 +1,6 @@
 """C17 — a callback layer that overrides nothing changes nothing."""
 import json, itertools, struct
+import os
 import kdf, dumpgen
 
 THEOREMS = ["Kdf.Props.C17.top_calls_ok", "Kdf.Props.C17.topCall_transparent_of", "Kdf.Props.C17.topCall_transparent",
@@ -88,7 +89,7 @@ def spec2(layers, h):
 KT, DM, VM = 0xffffffff80000000, 0xffff880000000000, 0xffffc90000000000
 
 
-def write_linux_elf(R, path):
+def write_linux_elf(R, path, cut_vmalloc_tables=False):
     """ELF64 x86-64 Linux vmcore: 16 frames of RAM in the direct mapping, 4-level page tables (root = init_top_pgt, in kernel
     text) that map the direct mapping, six vmalloc pages and the kernel-text pages of the tables and of init_uts_ns; VMCOREINFO
     with the symbols the dump object and the x86-64 set-up of libaddrxlat resolve through the callback chain."""
@@ -118,8 +119,27 @@ def write_linux_elf(R, path):
     segs = [dict(pfn=0, npages=16, voff=DM),
             dict(paddr=root_pfn << 12, filesz=len(tdata), memsz=len(tdata), voff=KT, data=tdata),
             dict(paddr=uts_pfn << 12, filesz=4096, memsz=4096, voff=KT, data=uts.ljust(4096, b"\0"))]
+    victims = []
+    if cut_vmalloc_tables:
+        # a TRUNCATED core: the last-level tables of the vmalloc mappings are the last LOAD segments of the file and the file
+        # ends where the first of them begins (their pages lie wholly behind the end of the file) -- fetching one of their entries fails in the dump with KDUMP_ERR_EOF, a status that
+        # libkdumpfile hands through libaddrxlat as a negative number
+        for vpn in vm:
+            t = root_pfn
+            for sh in (27, 18, 9):
+                e = struct.unpack_from("<Q", tables[t], 8 * ((vpn >> sh) & 511))[0]
+                t = (e >> 12) & ((1 << 40) - 1)
+            if t not in victims:
+                victims.append(t)
+        keep = [root_pfn + i for i in range(npt) if root_pfn + i not in victims]
+        pt = lambda q: dict(paddr=q << 12, filesz=4096, memsz=4096, voff=KT, data=tables.get(q, bytes(4096)))
+        segs = [segs[0], segs[2]] + [pt(q) for q in keep] + [pt(q) for q in victims]
     dumpgen.write_elf(path, segs, notes=dumpgen.elf_note(b"VMCOREINFO", 0, vmci))
-    return dict(root=root_pfn << 12, uts=(uts_pfn << 12) + uts_off, vm=vm, nodename=names[1].decode())
+    if victims:
+        size = os.path.getsize(path)
+        with open(path, "r+b") as f:
+            f.truncate(size - 4096 * len(victims))
+    return dict(root=root_pfn << 12, uts=(uts_pfn << 12) + uts_off, vm=vm, nodename=names[1].decode(), victims=victims)
 
 
 def dump_observations(R, info):
@@ -222,12 +242,12 @@ def dump_layers(R, proof):
     return fail, cov, model_lines, impl_answers
 
 
-def py_dump_walk(R, d):
+def py_dump_walk(R, d, truncated=False):
     """Python binding on a dump's context (python/kdumpfile.c + python/addrxlat.c built by py_layers): page-table walks through
     1..3 Context layers against a reference walk with plain reads"""
     import os, re, subprocess, sys, collections
-    path = R.path("c17-py.elf")
-    info = write_linux_elf(R, path)
+    path = R.path("c17-py%s.elf" % ("-cut" if truncated else ""))
+    info = write_linux_elf(R, path, cut_vmalloc_tables=truncated)
     vas = []
     for vpn in sorted(info["vm"]):
         vas.append(((0xffff << 48) | (vpn << 12)) + R.rng.choice([0, 8, 0xff8, R.rng.randrange(4096)]))
@@ -241,26 +261,35 @@ def py_dump_walk(R, d):
         if m:
             nobs += 1
             obs[(m.group(2), m.group(3))][(int(m.group(4)), bool(m.group(1)))] = m.group(5)
-    rp = dict(stream="py-dumpwalk", dump="tools/props/c17.py write_linux_elf (VERIF_SEED=%d)" % R.seed, vaddrs=["%x" % v for v in vas],
+    rp = dict(stream="py-dumpwalk", dump="tools/props/c17.py write_linux_elf (VERIF_SEED=%d%s)" % (R.seed, ", cut_vmalloc_tables=True: the file ends "
+              "where the LOAD segment of the last-level page table of the vmalloc addresses begins" if truncated else ""), vaddrs=["%x" % v for v in vas],
               replay="PYTHONPATH=<dir with _addrxlat.so, _kdumpfile.so built from python/*.c> python3 harness/py_dumpwalk.py <dump> %x %s"
                      % (info["root"], " ".join("%x" % v for v in vas)))
-    if r.returncode != 0 or "done" not in r.stdout or nobs < 3 * 4 * len(vas):
+    if r.returncode != 0 or "done" not in r.stdout or nobs < 4 * 4 * len(vas):
         return ("python dump-walk script stopped (rc=%s) after %d observations: %s" % (r.returncode, nobs, r.stderr.strip()[-600:]),
                 dict(rp, stdout_tail=r.stdout[-1000:], stderr=r.stderr[-1500:])), nobs
     good = sum(v.get((0, False), "").startswith("val") for v in obs.values())
-    if good < 2 * len(vas):
+    if good < 2 * len(vas) and not truncated:
         raise kdf.CheckBroken("reference walks of the generated vmcore fail: %s" % dict(list(obs.items())[:4]))
+    if truncated:
+        cutva = ["%x" % v for v in vas[:len(info["vm"])]]
+        bad = [va for va in cutva if obs[("kvread", va)].get((0, False)) != "exc EOFException"]
+        if bad:
+            raise kdf.CheckBroken("the truncated vmcore does not fail with EOF where its page tables are cut off: %s" %
+                                  {va: obs[("kvread", va)].get((0, False)) for va in bad})
     for (what, va), v in sorted(obs.items()):
         want = v.get((0, False))
-        if what != "word" and not want.startswith("val"):
+        if what not in ("word", "kvread") and not want.startswith("val"):
             want = None          # an address that does not translate: the layered walks must fail too (whatever the exception)
+        # kvread: a read by libkdumpfile itself -- the dump's C code receives the status of its own page hook back through the
+        # Python layers as a number and turns it into its own status: the SAME exception class as without any layer
         for key, got in sorted(v.items()):
             if key == (0, False):
                 continue
             if (want is None and got.startswith("val")) or (want is not None and got != want):
-                return ("Python binding on a dump's context: %s of %s through %d pass-through Context layer(s)%s gives '%s'; the reference "
-                        "walk with plain reads gives '%s'" % (what, va, key[0], " (after lower layers were dropped)" if key[1] else "", got,
-                                                             v.get((0, False))), dict(rp, what=what, vaddr=va, layers=key[0], got=got, want=v.get((0, False)))), nobs
+                return ("Python binding on a dump's context%s: %s of %s through %d pass-through Context layer(s)%s gives '%s'; %s gives '%s'"
+                        % (" (truncated vmcore)" if truncated else "", what, va, key[0], " (after lower layers were dropped)" if key[1] else "", got,
+                           "the same read without any layer" if what == "kvread" else "the reference walk with plain reads", v.get((0, False))), dict(rp, what=what, vaddr=va, layers=key[0], got=got, want=v.get((0, False)))), nobs
     return None, nobs
 
 
@@ -304,7 +333,7 @@ def py_layers(R):
         if m:
             nobs += 1
             obs[(m.group(2), m.group(3))][(int(m.group(4)), bool(m.group(1)))] = m.group(5)
-    if r.returncode != 0 or nobs < 250:
+    if r.returncode != 0 or nobs < 900:
         return ("python layer script stopped (rc=%s) after %d observations: %s" % (r.returncode, nobs, r.stderr.strip()[-600:]),
                 dict(stream="py-layers", stdout_tail=r.stdout[-1500:], stderr=r.stderr[-1500:])), nobs, 0
     nontriv = 0
@@ -314,14 +343,31 @@ def py_layers(R):
                 return ("bottom layer after the upper layers were removed: %s" % v, dict(stream="py-layers", hook=hook, outcomes=str(v))), nobs, nontriv
             continue
         kind = key.split(":")[0] if ":" in key else None
-        if hook == "get_page":
-            kind = ("val", "zero", "big", "none", "myerr", "key", "nodata", "notimpl", "str")[(int(key, 16) >> 12) % 9]
         # a value or a foreign exception must come through unchanged from the bottom layer's own method; addrxlat's own exceptions,
         # None and unconvertible results are turned into a status by the first layer: compared from one layer upwards
-        first = 0 if (hook in ("read_caps", "layer-is-new") or kind in ("val", "zero", "big", "myerr", "key")) else 1
+        # (memarr: the page fetch is made by libaddrxlat's C code through the context object -- already one layer at "0")
+        first = 0 if (hook in ("read_caps", "layer-is-new", "memarr") or kind in ("val", "zero", "big", "myerr", "key")) else 1
         want = v.get((first, False))
-        for n in range(first, 4):
+        for n in range(0 if kind and kind.startswith("sc") else first, 4):
             nontriv += n > 0
+            if kind and kind.startswith("sc"):
+                # independent expectation: the status the bottom implementation returned is the status that arrives, whatever
+                # its sign and whether libaddrxlat has a name for it, with the bottom implementation's message
+                stv = kind[2:].replace("m", "-")
+                got = v.get((n, False)) or ""
+                m = re.match(r"exc (\w+) \('(-?\d+)', (.*)\)$", got)
+                # (memarr: libaddrxlat's conversion may answer a page that has no data with "no way to translate"; which status the
+                # conversion reports is its business -- it must be the same through every number of layers, and carry the message)
+                # A C caller receives the status as a number and puts its own context in front of the message ("...: status N for ...");
+                # a bare bottom message means the status did not arrive as a status (it was parked as a Python exception instead).
+                if not m or (m.group(2) != stv and hook != "memarr") or ("status %s for" % kind[2:]) not in m.group(3) or \
+                        (hook == "memarr" and (": status %s for" % kind[2:]) not in m.group(3)):
+                    return ("Python binding: hook %s, bottom implementation returns status %s: through %d pass-through layer(s) the caller gets '%s' "
+                            "instead of status %s with the bottom implementation's message" % (hook, stv, n, got, stv),
+                            dict(stream="py-layers", hook=hook, key=key, status=int(stv), layers=n, outcomes={str(k): x for k, x in v.items()},
+                                 replay="PYTHONPATH=<dir with _addrxlat.so built from python/addrxlat.c> python3 harness/py_layers.py")), nobs, nontriv
+                if n < first:
+                    continue
             if v.get((n, False)) != want:
                 return ("Python binding: hook %s for %s through %d pass-through layer(s) gives '%s'; %s gives '%s'" %
                         (hook, key, n, v.get((n, False)), "the bottom layer's own method" if first == 0 else "one pass-through layer", want),
@@ -371,6 +417,9 @@ def run(R):
                 fails.append((len(s) + ndel, si, oi, h, got, want))
     pyfail, pyobs, pynontriv = py_layers(R)
     pywfail, pywobs = py_dump_walk(R, R.path("pyl")) if not pyfail else (None, 0)
+    if not pyfail and not pywfail:
+        pywfail, n2 = py_dump_walk(R, R.path("pyl"), truncated=True)
+        pywobs += n2
     dfail, dcov, dmodel, dimpl = dump_layers(R, proof)
     dmism = None
     if dmodel:
@@ -421,4 +470,8 @@ def run(R):
                           "walks are tied to the implementation by their visible effect (UTS attributes, KVADDR reads), the other hooks by "
                           "the extracted call-site table only",
                           "Python binding (python/addrxlat.c): not modelled; its layers are compared with each other and with the bottom "
-                          "layer's own methods (7 hooks x 9 outcome kinds x 0..3 layers) on the implementation only"]
+                          "layer's own methods (7 hooks x 29 outcome kinds x 0..3 layers) on the implementation only; the outcome kinds include "
+                          "20 status numbers (every libaddrxlat code, unknown positive codes, negative codes as libkdumpfile tunnels its own "
+                          "statuses) which must arrive unchanged, also at a C caller (a MEMARR look-up by libaddrxlat through the layers); on a dump's "
+                          "context: reads of kernel virtual addresses by libkdumpfile itself (which receives its own page hook's status back as a "
+                          "number) through 0..3 layers, on an intact and on a truncated vmcore whose vmalloc page tables lie behind the end of the file"]
